@@ -10,7 +10,7 @@ import tempfile
 import threading
 
 from xsdata.formats.dataclass.context import XmlContext
-from xsdata.formats.dataclass.models.elements import XmlVar
+from xsdata.formats.dataclass.models.elements import XmlMeta, XmlVar
 from xsdata.formats.dataclass.parsers.bases import NodeParser
 
 from . import sched
@@ -202,3 +202,68 @@ def run_spec_ops(ctx, tid, prog):
         return out
 
     return body
+
+
+# -- shared METADATA (XmlMeta / XmlVar objects handed out by the context) -----------------------------
+META_SRC = '''
+from dataclasses import dataclass, field
+from typing import Dict, List, Optional
+
+
+@dataclass
+class TextAttr:
+    """simple content: the text var is declared FIRST, the attributes after it"""
+    class Meta:
+        namespace = "urn:m"
+
+    value: str = field(default="", metadata={"type": "Text"})
+    a: Optional[int] = field(default=None, metadata={"type": "Attribute"})
+    b: Optional[str] = field(default=None, metadata={"type": "Attribute"})
+
+
+@dataclass
+class Shuffled:
+    """declaration order differs from the order in which XmlMeta groups its vars"""
+    class Meta:
+        namespace = "urn:m"
+
+    e1: Optional[str] = field(default=None, metadata={"type": "Element"})
+    k: Optional[int] = field(default=None, metadata={"type": "Attribute"})
+    rest: List[object] = field(default_factory=list, metadata={"type": "Wildcard", "namespace": "##other"})
+    e2: Optional[int] = field(default=None, metadata={"type": "Element"})
+    extra: Dict[str, str] = field(default_factory=dict, metadata={"type": "Attributes"})
+    t: Optional[TextAttr] = field(default=None, metadata={"type": "Element"})
+'''
+
+
+def meta_package():
+    if "meta_mod" in _state:
+        return _state["meta_mod"]
+    package()
+    d = tempfile.mkdtemp(prefix="xv-c19m-")
+    atexit.register(shutil.rmtree, d, ignore_errors=True)
+    name = f"xvc19m_{os.getpid()}"
+    with open(os.path.join(d, name + ".py"), "w") as f:
+        f.write(META_SRC)
+    sys.path.insert(0, d)
+    _state["meta_mod"] = importlib.import_module(name)
+    return _state["meta_mod"]
+
+
+def meta_markers() -> sched.MarkerSet:
+    """Every line of every method of XmlMeta / XmlVar that touches the object is a yield point (constructors
+    excluded: an object under construction is not shared yet).  The binding metadata is handed out by the shared
+    context, so lazily computed state on it is shared state."""
+    import inspect
+
+    ms = []
+    for cls in (XmlMeta, XmlVar):
+        for name, member in vars(cls).items():
+            fn = member.fget if isinstance(member, property) else member
+            if name == "__init__" or not inspect.isfunction(fn):
+                continue
+            ms.append(sched.Marker(fn, [(r"self\b", "v_access")]))
+    ms.append(sched.Marker(XmlContext.build, [(r"if clazz not in self\.cache", "b_check"),
+                                              (r"self\.cache\[clazz\]\s*=", "b_store"),
+                                              (r"return self\.cache\[clazz\]", "b_read")]))
+    return sched.MarkerSet(ms)
